@@ -26,6 +26,8 @@ R4 (K6) the value compared is read after following symbolic refs for set_if_equa
 Added while testing against seeded changes: R4 is now a decision table by abstract evaluation over the three storage
 states of a ref (loose over stale packed / packed only / absent), following one level of helper; R5 the expected value
 handed to a conditional update is never None and absent refs are created with add_if_new.
+R6 whatever a method writes to packed-refs is the cached view get_packed_refs() answers from, or that cache is replaced
+on every normal path after the write (the value in force for the next conditional update is read through the cache).
 Does not decide: atomicity between the read and the write (no lock file on arbitrary transports).
 """
 ASSUMPTIONS = ["dulwich RefsContainer semantics: ZERO_SHA stands for an absent ref in comparisons"]
@@ -250,6 +252,43 @@ def run(ctx):
     ffr = repo.func(IR, "InterToLocalGitRepository.fetch_refs")
     hs = [h for h in ast.walk(ffr) if isinstance(h, ast.ExceptHandler) and "KeyError" in norm(h.type or ast.Constant(value=""))]
     ctx.check("R5-expected-value-present", f"{IR}:InterToLocalGitRepository.fetch_refs", any(call_attr(c) == "add_if_new" for h in hs for c in calls_in(h)), "a ref that was absent when the target's refs were read is created with add_if_new (never overwrites)", message="fetch_refs no longer creates absent refs with add_if_new: two pushers creating the same ref overwrite each other silently")
+    # ---- R6: the cached view of packed-refs is what was written to the file -------------------------------------
+    # (the value in force that the next conditional update compares with is read through this cache)
+    for rel in repo.python_files():
+        if not rel.startswith("breezy/git/") or "write_packed_refs" not in repo.text(rel):
+            continue
+        mod = repo.module(rel)
+        for cq in mod.classes():
+            getter = mod.get(f"{cq}.get_packed_refs")
+            if getter is None:
+                continue
+            rets = {norm(r.value) for r in walk_own(getter) if isinstance(r, ast.Return) and r.value is not None and norm(r.value).startswith("self.")}
+            ctx.require(len(rets) == 1 and next(iter(rets)).startswith("self."), f"{rel}:{cq}.get_packed_refs: cache attribute not recognised ({sorted(rets)})")
+            packed = next(iter(rets))
+            caches = sorted({norm(a.targets[0]) for a in walk_own(getter) if isinstance(a, ast.Assign) and norm(a.targets[0]).startswith("self.") and norm(a.value) in ("{}", "dict()")})
+            ctx.require(packed in caches, f"{rel}:{cq}.get_packed_refs: {packed} is not initialised there")
+            for q, fn in mod.functions().items():
+                if not q.startswith(cq + "."):
+                    continue
+                g = None
+                for c in calls_in(fn):
+                    if (call_attr(c) or norm(c.func)) != "write_packed_refs" or len(c.args) < 2:
+                        continue
+                    where = f"{rel}:{q}"
+                    handed = [norm(a) for a in c.args[1:3]]
+                    direct = handed[0] == packed and all(h in caches for h in handed)
+                    ok = direct
+                    if not direct:
+                        # accepted alternative: the cache is replaced or invalidated on every normal path after the write
+                        from ..cfg import build_cfg
+                        from ..rules import calling
+
+                        g = g or build_cfg(fn)
+                        gx = g.without_exc_edges()
+                        w_ = calling(gx, name="write_packed_refs") or calling(gx, attr="write_packed_refs")
+                        upd = [n.id for n in gx.nodes if n.kind == "stmt" and isinstance(n.ast, ast.Assign) and any(norm(t) == packed for t in n.ast.targets)]
+                        ok = bool(w_) and bool(upd) and gx.exit not in gx.reach(w_, avoid=set(upd))
+                    ctx.check("R6-packed-cache-follows-file", where, ok, f"{q}: what is written to packed-refs is the cached view {caches} (or the cache is replaced afterwards)", construct=f"write_packed_refs(…, {', '.join(handed)})", message=f"{q} writes packed-refs from {handed} while the cache {packed} that get_packed_refs() answers from is left as it was: the next conditional update compares with a value that is no longer in force (a removed ref still looks present, add_if_new refuses to create it, set_if_equals succeeds against the stale value)")
     n_all = 0
     for rel in repo.python_files():
         if "_if_equals(" in repo.text(rel):
@@ -263,6 +302,8 @@ def run(ctx):
 
 _FIX_SET = "        if old_ref is not None:\n            orig_ref = self.read_loose_ref(realname)\n            if orig_ref is None:\n                orig_ref = self.get_packed_refs().get(realname, ZERO_SHA)\n            if orig_ref != old_ref:\n                return False\n"
 MUTANTS = [
+    Mutant("packed ref removed from the file but not from the cache", TG, "        del self._packed_refs[name]\n        if name in self._peeled_refs:\n            del self._peeled_refs[name]\n        with self.transport.open_write_stream(\"packed-refs\") as f:\n            write_packed_refs(f, self._packed_refs, self._peeled_refs)\n", "        packed_refs = {k: v for k, v in self._packed_refs.items() if k != name}\n        peeled_refs = {k: v for k, v in self._peeled_refs.items() if k != name}\n        with self.transport.open_write_stream(\"packed-refs\") as f:\n            write_packed_refs(f, packed_refs, peeled_refs)\n", expect="R6-packed-cache-follows-file"),
+    Mutant("neutral: new packed-refs built on the side, cache replaced after the write", TG, "        del self._packed_refs[name]\n        if name in self._peeled_refs:\n            del self._peeled_refs[name]\n        with self.transport.open_write_stream(\"packed-refs\") as f:\n            write_packed_refs(f, self._packed_refs, self._peeled_refs)\n", "        packed_refs = {k: v for k, v in self._packed_refs.items() if k != name}\n        peeled_refs = {k: v for k, v in self._peeled_refs.items() if k != name}\n        with self.transport.open_write_stream(\"packed-refs\") as f:\n            write_packed_refs(f, packed_refs, peeled_refs)\n        self._packed_refs = packed_refs\n        self._peeled_refs = peeled_refs\n", neutral=True),
     Mutant("absent ref created with set_if_equals(name, None, ...)", IR, "                    try:\n                        old_git_id = old_refs[name][0]\n                    except KeyError:\n                        self.target_refs.add_if_new(name, gitid)\n                    else:\n                        self.target_refs.set_if_equals(name, old_git_id, gitid)\n", "                    old_git_id = old_refs.get(name, (None, None))[0]\n                    self.target_refs.set_if_equals(name, old_git_id, gitid)\n", expect="R5-expected-value-present"),
     Mutant("packed refs consulted before the loose ref", TG, "            orig_ref = self.read_loose_ref(realname)\n            if orig_ref is None:\n                orig_ref = self.get_packed_refs().get(realname, ZERO_SHA)\n", "            orig_ref = self.get_packed_refs().get(realname)\n            if orig_ref is None:\n                orig_ref = self.read_loose_ref(realname) or ZERO_SHA\n", expect="R4-current-value-table"),
     Mutant("neutral: comparison written as one condition", TG, "            if orig_ref != old_ref:\n                return False\n        if realname == b\"HEAD\":", "            if old_ref is not None and orig_ref != old_ref:\n                return False\n        if realname == b\"HEAD\":", neutral=True),
